@@ -28,7 +28,7 @@ def run(tier):
         dict(name='2 sessions, untimed, polls+sends (no cross delivery, isolation)',
              consts=core.consts(Sid='{1, 2}', Alpha=A('open', 'poll', 'send'), MaxMsg=2,
                                 MaxReq=8 if th else 7, MaxQ=3),
-             invariants=INVS, min_states=1000),
+             invariants=INVS, properties=['H_AppendOnly'], min_states=1000),
         dict(name='1 session, environment actions interleaved with internal steps (polling)',
              consts=core.consts(Alpha=A('open', 'poll', 'send', 'post', 'tick'),
                                 BodyProfile='"msg"', EnvAnytime='TRUE', MaxMsg=2, Horizon=4,
@@ -77,6 +77,10 @@ def run(tier):
                           cfg={'ping_interval': 12, 'ping_timeout': 6, 'monitor': True,
                                'async_handlers': True},
                           nslots=3, scripts=core.random_scripts(seed + 4, n, 36, 3, w_upg)))
+    plans.append(core.preempt_plan(seed, 300 if th else 40, 30, 2, w_upg, cfgA,
+                                   'upgrade handshake interleaved with sends and polls'))
+    plans.append(core.preempt_plan(seed + 1, 300 if th else 40, 24, 2, w_poll, cfgA,
+                                   'polling, overlapping polls, sends'))
     core.conform(ck, plans)
     ck.cov['rule'] = ('case = one environment script (opens, polls, posts, frames, sends, clock '
                       'advances) executed on one server implementation; distinct by the sequence of '
